@@ -353,10 +353,25 @@ func (fc *FnCtx) strEq(l, r Val) string {
 			}
 		}
 	}
-	fc.nfresh++
-	q := fmt.Sprintf("k!q%d", fc.nfresh)
-	return fmt.Sprintf("(and (= %s %s) (forall ((%s Int)) (=> (and (<= 0 %s) (< %s %s)) (= (select %s (+ %s %s)) (select %s (+ %s %s))))))",
-		l.C[2], r.C[2], q, q, q, l.C[2], l.C[0], l.C[1], q, r.C[0], r.C[1], q)
+	// content equality is named by an uninterpreted predicate with its defining axiom, so that the same
+	// comparison is the same term wherever it occurs (symmetric: operands are ordered)
+	a, b := l, r
+	if strings.Join(a.C, "|") > strings.Join(b.C, "|") {
+		a, b = b, a
+	}
+	fc.declareFun("streq", fmt.Sprintf("(%s Int Int %s Int Int) Bool", SArr, SArr))
+	term := fmt.Sprintf("(streq %s %s %s %s %s %s)", a.C[0], a.C[1], a.C[2], b.C[0], b.C[1], b.C[2])
+	if fc.streqSeen == nil {
+		fc.streqSeen = map[string]bool{}
+	}
+	if !fc.streqSeen[term] {
+		fc.streqSeen[term] = true
+		fc.nfresh++
+		q := fmt.Sprintf("k!q%d", fc.nfresh)
+		fc.assertGlobal(fmt.Sprintf("(= %s (and (= %s %s) (forall ((%s Int)) (=> (and (<= 0 %s) (< %s %s)) (= (select %s (+ %s %s)) (select %s (+ %s %s)))))))",
+			term, a.C[2], b.C[2], q, q, q, a.C[2], a.C[0], a.C[1], q, b.C[0], b.C[1], q))
+	}
+	return term
 }
 
 // ---------------------------------------------------------------------------
@@ -445,6 +460,56 @@ func (fc *FnCtx) evalCall(x *ECall, env *Env) Val {
 			fc.fail("sliceoff of kind %d", v.K)
 		}
 		return intVal(v.C[1])
+	case "callres":
+		// callres("F"): the result of the latest call to function F that dominates this point
+		lit, ok := x.Args[0].(*ELit)
+		if !ok || lit.Kind != "string" {
+			fc.fail("callres expects a function name string")
+		}
+		v, found := fc.callResult(lit.Val)
+		if !found {
+			fc.fail("unknown identifier callres(%s)", lit.Val)
+		}
+		if len(x.Args) > 1 {
+			il, ok := x.Args[1].(*ELit)
+			if !ok || il.Kind != "int" || v.K != KTuple {
+				fc.fail("callres(name, k): k must be a literal index into a tuple result")
+			}
+			var k int
+			fmt.Sscan(il.Val, &k)
+			lo, hi, ft := fieldRange(v.T, k)
+			return mkVal(ft, v.C[lo:hi])
+		}
+		return v
+	case "onlywrites":
+		// onlywrites(b, lo, hi): compared with the pre-state, the call changed at most b[lo:hi) in the octet
+		// heap (every other cell of b's backing array and every other byte array is unchanged)
+		b := fc.evalExpr(x.Args[0], env)
+		lo := fc.evalExpr(x.Args[1], env).S()
+		hi := fc.evalExpr(x.Args[2], env).S()
+		if b.K != KSlice {
+			fc.fail("onlywrites expects a slice")
+		}
+		et := b.T.Underlying().(*types.Slice).Elem()
+		hn := "A." + typeName(et) + ".v"
+		hs := arrOf(arrOf(SInt))
+		an := fc.getHeapTerm(env.heap, hn, hs)
+		ao := fc.getHeapTerm(env.old, hn, hs)
+		fc.nfresh++
+		j := fmt.Sprintf("j!q%d", fc.nfresh)
+		fc.nfresh++
+		r := fmt.Sprintf("r!q%d", fc.nfresh)
+		return boolVal(fmt.Sprintf("(and (forall ((%s Int)) (! (=> (or (< %s (+ %s %s)) (>= %s (+ %s %s))) (= (select (select %s %s) %s) (select (select %s %s) %s))) :pattern ((select (select %s %s) %s)))) (forall ((%s Int)) (! (=> (not (= %s %s)) (= (select %s %s) (select %s %s))) :pattern ((select %s %s)))))",
+			j, j, b.C[1], lo, j, b.C[1], hi, an, b.C[0], j, ao, b.C[0], j, an, b.C[0], j,
+			r, r, b.C[0], an, r, ao, r, an, r))
+	case "strlt":
+		// strlt(a, b): a sorts before b (octet-wise lexicographic order, as Go's < on strings)
+		a := fc.evalExpr(x.Args[0], env)
+		b := fc.evalExpr(x.Args[1], env)
+		if a.K != KStr || b.K != KStr {
+			fc.fail("strlt expects strings")
+		}
+		return boolVal(fmt.Sprintf("(< %s 0)", fc.strCmp(a, b)))
 	case "same":
 		// same(x, y): identical values (component-wise), e.g. the very same string, not just equal contents
 		a := fc.evalExpr(x.Args[0], env)
